@@ -171,8 +171,9 @@ class ModelFS:
 
 
 class ModelFile:
-    def __init__(self, fs, inode, proc):
+    def __init__(self, fs, inode, proc, encoding=None):
         self.fs, self.inode, self.proc = fs, inode, proc
+        self.encoding = encoding              # text mode: what is written is str, encoded into the buffer
         self.buffer = b''
         self.closed = False
         proc.open_files.append(self)
@@ -181,6 +182,8 @@ class ModelFile:
         if self.proc.dead:
             return
         self.fs.events += 1
+        if self.encoding is not None:
+            data = data.encode(self.encoding)
         self.buffer = self.buffer + data      # buffered: not on disk yet
 
     def flush(self):
@@ -283,9 +286,9 @@ class model_os:
         return None
 
     @staticmethod
-    def fdopen(fd, mode='wb'):
+    def fdopen(fd, mode='wb', buffering=-1, encoding=None, errors=None, newline=None):
         proc = CURRENT[0]
-        return ModelFile(proc.fs, fd, proc)
+        return ModelFile(proc.fs, fd, proc, None if 'b' in mode else (encoding or 'utf-8'))
 
     @staticmethod
     def rename(a, b):
